@@ -4,13 +4,13 @@ def plan(ctx):
     thorough = ctx.tier == "thorough"
     obs = []
     U = real_crc_units() + ["ref_format", "xor_eq"]
-    names = {2: "encode", 3: "decode", 4: "reconstruct", 5: "fragments_needed", 6: "metadata-validation-cleanup-queries"}
+    names = {2: "encode", 3: "decode", 4: "reconstruct", 5: "fragments_needed", 6: "metadata-validation-cleanup-queries", 7: "cleanup-halves"}
     inst = [(RS, 2, 1, 1)] + ([(XOR, 3, 3, 3), (ISAV, 2, 1, 1)] if thorough else [])
     INT_MAX = 2147483647
     for be, k, m, hd in inst:
         n = k + m
         variants = []
-        for mode in (2, 5, 6):
+        for mode in (2, 5, 6, 7):
             variants.append((mode, {}, ""))
         for var in (0, 1, 2):
             variants.append((3, {"VAR": var}, f"-var{var}"))
@@ -26,7 +26,7 @@ def plan(ctx):
                           unwindset=dict({f"main.{i}": 90 for i in range(12)}, **{"ref_header.0": 84, "crc_run.0": 84, "crc_run.1": 84, "crc32.0": 84, "crc32.1": 84}),
                           flags=["--memory-leak-check"], timeout=1200, mem_gb=6,
                           sample={"symbolic": "descriptor (live/unknown), pointer arguments (valid/NULL), count or length", "api": names[mode], "instance": [BNAME[be], k, m], "variant": extra},
-                          targets=["liberasurecode_" + names[mode]] if mode < 6 else ["liberasurecode_get_fragment_metadata", "liberasurecode_verify_stripe_metadata", "is_invalid_fragment",
+                          targets=["liberasurecode_" + names[mode]] if mode < 6 else ["liberasurecode_encode_cleanup", "liberasurecode_decode_cleanup"] if mode == 7 else ["liberasurecode_get_fragment_metadata", "liberasurecode_verify_stripe_metadata", "is_invalid_fragment",
                                    "liberasurecode_encode_cleanup", "liberasurecode_decode_cleanup", "liberasurecode_instance_destroy", "liberasurecode_backend_available"]))
     # enumerated boundary shapes for the matrix-based back ends: refused or survives a full cycle
     refused = [(RS, 0, 1), (RS, -1, 2), (RS, 1, -1), (RS, 32, 1), (RS, 1, 32), (RS, 0, 0), (RS, 17, 16), (ISAV, 0, 2), (ISAV, 30, 3), (ISAC, -1, 1), (ISAC, 0, 0), (XOR, 0, 3), (XOR, 4, 3), (XOR, 2, 3), (XOR, 16, 6), (XOR, 5, 6), (XOR, 11, 5), (XOR, 4, 5), (XOR, 3, 3, 4), (XOR, 21, 6, 4), (XOR, 5, 6, 4), (XOR, 11, 5, 4), (XOR, 4, 5, 4), (XOR, 5, 5, 2), (XOR, 6, 4), (NULL, 0, 1), (NULL, -1, 1), (NULL, 20, 13)]
